@@ -2,7 +2,7 @@
 # usage: selftest/run_all_seeded.sh [tier]   -- re-runs the property's check against every kept seeded change
 # (scratch copies of /repo; /repo itself is never touched) and prints one line per change.
 tier="${1:-quick}"
-cd /verif
+cd "$(dirname "$0")/.."
 for d in seeded/*/; do
   name=$(basename "$d")
   prop=$(python3 -c "import json;print(json.load(open('$d/meta.json'))['property'])")
